@@ -207,25 +207,36 @@ class Symb:
     GENERIC = re.compile(r"^(MIR_malloc|MIR_calloc|MIR_realloc|MIR_free|MIR_mem_map|MIR_mem_unmap|MIR_mem_protect|"
                          r"VARR_.*|HTAB_.*|DLIST_.*|bitmap_.*|reg_malloc|c2mir_calloc)$")
 
-    def site(self, pc):
-        """(file stem, function) of the innermost frame that is not a generic allocation helper."""
-        if pc is None:
-            return ("?", "?")
-        if pc not in self.cache:
-            self.resolve([pc])
-        fr = self.cache[pc]
+    @staticmethod
+    def pcs_of(e):
+        if e is None:
+            return []
+        if "bt" in e:
+            return list(e["bt"])
+        pc = e.get("pc")
+        return [pc] if isinstance(pc, int) and 0 < pc < 2 ** 31 else []
+
+    def frames(self, e):
+        """Function frames behind an event, innermost first (inlined frames expanded)."""
+        pcs = self.pcs_of(e)
+        self.resolve(pcs)
+        fr = []
+        for p in pcs:
+            fr += self.cache[p]
+        return fr or [("?", "?")]
+
+    def site(self, e):
+        """(file stem, function): the innermost frame that is not a generic allocation helper.  Because the
+        harness logs a short backtrace, the answer does not depend on what the compiler inlined."""
+        fr = self.frames(e)
         for fn, f in fr:
-            if not self.GENERIC.match(fn):
+            if not self.GENERIC.match(fn) and fn not in ("?", "??"):
                 return (re.sub(r"\.[ch]$", "", f), fn)
-        fn, f = fr[-1]
+        fn, f = fr[0]
         return (re.sub(r"\.[ch]$", "", f), fn)
 
-    def chain(self, pc):
-        if pc is None:
-            return "?"
-        if pc not in self.cache:
-            self.resolve([pc])
-        return " <- ".join(fn for fn, _ in self.cache[pc])
+    def chain(self, e):
+        return " <- ".join(fn for fn, _ in self.frames(e)[:8])
 
 
 # ------------------------------------------------------------------ executions
@@ -275,13 +286,13 @@ TLC_FIELDS = {"Malloc": ("id", "size"), "Calloc": ("id", "num", "esz"), "Realloc
 
 
 def raw_key(sy, e):
-    f, fn = sy.site(e.get("pc"))
+    f, fn = sy.site(e)
     kind = RAW_KIND.get(e["e"]) or e.get("f", "other")
     return "%s:raw_%s:%s" % (f, kind, fn)
 
 
 def leak_key(sy, e):
-    f, fn = sy.site(e.get("pc"))
+    f, fn = sy.site(e)
     return "leak:%s:%s" % (f, fn)
 
 
@@ -589,7 +600,7 @@ class Validator:
                         "libc": "a block obtained with libc malloc is released with libc free()",
                         "none": "libc free() of a pointer unknown to the ledger", "dead": "libc free() of a released block"}.get(own, "")
                 self.report(x, key, "library code calls libc %s directly, %d time(s) in this execution (%s) %s; %s"
-                            % (e2["e"][3:].lower(), n, sy.chain(e2.get("pc")), what, where), e2)
+                            % (e2["e"][3:].lower(), n, sy.chain(e2), what, where), e2)
                 self.forced.add(key)
             return True
         if k == "Finish":
@@ -598,17 +609,17 @@ class Validator:
                 key = leak_key(sy, ae)
                 if not self.known_fn(x)(key):
                     self.report(x, key, "block %d (%s bytes) allocated in %s is still held after MIR_finish; %s"
-                                % (bid, ae.get("size", ae.get("nsz", "?")), sy.chain(ae.get("pc")), where), ae)
+                                % (bid, ae.get("size", ae.get("nsz", "?")), sy.chain(ae), where), ae)
                     self.forced.add(key)
             for r, me in sorted(code.items()):
-                self.report(x, "leak_code:%s:%s" % sy.site(me.get("pc")), "code region %d (%d bytes) is still mapped after MIR_finish; %s"
+                self.report(x, "leak_code:%s:%s" % sy.site(me), "code region %d (%d bytes) is still mapped after MIR_finish; %s"
                             % (r, me["len"], where), me)
             if not live and not code:
                 self.report(x, "finish:rejected", "Finish rejected; " + where, e)
                 return False
             return not code
-        site = "%s:%s" % sy.site(e.get("pc"))
-        chain = sy.chain(e.get("pc"))
+        site = "%s:%s" % sy.site(e)
+        chain = sy.chain(e)
         if k == "Realloc":
             live, _ = self.ledger_at(x, idx)
             if e["old"] in live:
@@ -709,8 +720,8 @@ def record_all(variants, H, tag):
                         ce = [e for e in xs[-1].events if e["e"] == "Crash"]
                         if ce:
                             crash["poison"] = ce[-1].get("poison", 0)
-                            crash["crash_site"] = "%s:%s" % symb[v].site(ce[-1].get("pc"))
-                            crash["crash_pc"] = " in " + symb[v].chain(ce[-1].get("pc"))
+                            crash["crash_site"] = "%s:%s" % symb[v].site(ce[-1])
+                            crash["crash_pc"] = " in " + symb[v].chain(ce[-1])
     return execs, crashes, symb, exes
 
 
